@@ -409,6 +409,40 @@ func ruleLexTcol(c *Ctx) []Obligation {
 			movers = append(movers, fn)
 		}
 	}
+	// a function that moves over a whole text at once resets tcol at a line break and then walks the text AFTER the
+	// last line break; walking the whole text would add the columns of the earlier lines as well
+	for _, fn := range movers {
+		if _, hasNL := maps[fn]["newline"]; !hasNL {
+			continue
+		}
+		for _, st := range c.storesToFieldDeep(fn, fTcol) {
+			h := loopHeaderOf(st.Block())
+			if h == nil || st.Parent() == nil {
+				continue
+			}
+			var rng *ssa.Range
+			for _, b := range st.Parent().Blocks {
+				for _, in := range b.Instrs {
+					if r, isR := in.(*ssa.Range); isR && b.Dominates(h) {
+						if bt, isB := r.X.Type().Underlying().(*types.Basic); isB && bt.Info()&types.IsString != 0 {
+							rng = r
+						}
+					}
+				}
+			}
+			if rng == nil {
+				continue
+			}
+			con := fmt.Sprintf("%s: the per-character tcol loop walks the text after the last line break", c.FnName(fn))
+			v := resolveArg(rng.X)
+			if w := afterLastBreak(v); w == "" {
+				obs = append(obs, ok(R, con, c.InstrPos(rng), "range over text[LastIndex(text, \"\\n\")+1:]"))
+			} else {
+				obs = append(obs, bad(R, con, c.InstrPos(rng), "the loop that steps tcol "+w+": after a comment or string that spans lines the tab-expanded column includes the earlier lines, and a double-quoted string that starts on the same line strips too much"))
+			}
+			break
+		}
+	}
 	sort.Slice(movers, func(i, j int) bool { return c.FnName(movers[i]) < c.FnName(movers[j]) })
 	if len(movers) >= 2 {
 		for _, cls := range []string{"newline", "tab", "other"} {
